@@ -18,10 +18,10 @@ theorem zeroDiag_get (W : AMat ℚ n) (i j : Fin n) :
     (zeroDiag W).get i j = if i = j then 0 else W.get i j := by simp [zeroDiag]
 
 theorem pre_cases (W : AMat ℚ n) :
-    ((pre W).sym = true ∧ (pre W).W1 = dropLower (zeroDiag W) ∧ allclose (zeroDiag W) = true) ∨
-    ((pre W).sym = false ∧ (pre W).W1 = zeroDiag W ∧ allclose (zeroDiag W) = false) := by
+    ((pre W).sym = true ∧ (pre W).W1 = dropLower (zeroDiag W) ∧ arrayEqualT (zeroDiag W) = true) ∨
+    ((pre W).sym = false ∧ (pre W).W1 = zeroDiag W ∧ arrayEqualT (zeroDiag W) = false) := by
   unfold pre
-  by_cases h : allclose (zeroDiag W) = true
+  by_cases h : arrayEqualT (zeroDiag W) = true
   · left; simp [h]
   · right; simp [h]
 
@@ -59,26 +59,33 @@ theorem absR_eq (x : ℚ) : absR x = |x| := by
   · rw [abs_of_neg h]
   · rw [abs_of_nonneg (not_lt.mp h)]
 
-theorem closeCell_self (a : ℚ) : closeCell a a = true := by
-  simp only [closeCell, absR_eq, sub_self, abs_zero, decide_eq_true_eq]
-  positivity
+theorem arrayEqualT_iff (M : AMat ℚ n) : arrayEqualT M = true ↔ ∀ i j, M.get i j = M.get j i := by
+  simp [arrayEqualT, List.all_eq_true]
+
+/-- **the `ud = 2` branch is taken exactly for exactly symmetric input** (off the diagonal, which is cleared first) -/
+theorem pre_sym_iff (W : AMat ℚ n) : (pre W).sym = true ↔ ∀ i j : Fin n, i ≠ j → W.get i j = W.get j i := by
+  have key : arrayEqualT (zeroDiag W) = true ↔ ∀ i j : Fin n, i ≠ j → W.get i j = W.get j i := by
+    rw [arrayEqualT_iff]
+    constructor
+    · intro h i j hij
+      have := h i j
+      simp only [zeroDiag_get, if_neg hij, if_neg (fun e : j = i => hij e.symm)] at this
+      exact this
+    · intro h i j
+      by_cases e : i = j
+      · subst e; rfl
+      · simp only [zeroDiag_get, if_neg e, if_neg (fun e' : j = i => e e'.symm)]
+        exact h i j e
+  rcases pre_cases W with ⟨h1, _, h3⟩ | ⟨h1, _, h3⟩
+  · rw [h1]; exact ⟨fun _ => key.mp h3, fun _ => rfl⟩
+  · rw [h1]
+    constructor
+    · intro hf; cases hf
+    · intro h; rw [key.mpr h] at h3; cases h3
 
 /-- an exactly symmetric matrix takes the `ud = 2` branch -/
-theorem pre_sym_of_symmetric (W : AMat ℚ n) (h : ∀ i j, W.get i j = W.get j i) : (pre W).sym = true := by
-  rcases pre_cases W with ⟨h1, _, _⟩ | ⟨_, _, h3⟩
-  · exact h1
-  · exfalso
-    have : allclose (zeroDiag W) = true := by
-      simp only [allclose, List.all_eq_true]
-      intro i _ j _
-      have : (zeroDiag W).get j i = (zeroDiag W).get i j := by
-        simp only [zeroDiag_get, h j i]
-        by_cases e : i = j
-        · simp [e]
-        · have : ¬ j = i := fun e' => e e'.symm
-          simp [e, this]
-      rw [this]; exact closeCell_self _
-    rw [this] at h3; cases h3
+theorem pre_sym_of_symmetric (W : AMat ℚ n) (h : ∀ i j, W.get i j = W.get j i) : (pre W).sym = true :=
+  (pre_sym_iff W).mpr fun i j _ => h i j
 
 /-! ### the kept set -/
 
